@@ -6,6 +6,10 @@ props = [json.loads(l) for l in open(os.path.join(V, "properties.jsonl"))]
 BASELINE = "cd /repo && go build ./... && go test -vet=off -count=1 -timeout 25m ./..."
 
 CHECKS = {
+ "C02": dict(cat="model_checking",
+   text="XjsGrammar holds an ECMAScript reference grammar of the subset written independently of the parser's tables (operator levels, associativity, well-formedness, in-order yield, automatic semicolon insertion with the restricted productions) and an independent unparser; XjsPrograms enumerates every parent/child operator pair and side up to the cfg's depth in statement contexts and every sequence of statement templates; TLC renders each tree in many layouts (redundant parentheses, separators, line breaks in every permitted gap), checks that the transcribed parser model (XjsParser) returns exactly that tree, and exports each (token list, tree); the token lists are spelled out as text in several gap spellings (LF, CRLF, comments, blank lines, tight, wide, single quotes), parsed by the real parser, and TLC (Trace_C02) judges every real result: no error, stripped tree equal to the ECMAScript tree, yield/levels/ASI predicate on the real token list.",
+   note="Trusted: the reference grammar of XjsGrammar as a reading of ECMAScript for the subset; TLC; the mechanical token-to-text spelling in lib/render.py.",
+   tech="TLA+ reference grammar + transcribed parser model, TLC exhaustive small-scope trees x layouts; replay on the real parser; TLC validation of recorded (tokens, tree) against the declarative predicate", ref="DESIGN.md 5 C02"),
  "C09": dict(cat="model_checking",
    text="TLC explores every history of source-map builder operations up to the configured length over small parameter domains on the TLA+ machine XjsSourceMap (design-level invariants: an independent v3 decoder inverts the transcribed encoder, names deduplicated and stable, segments ordered); every maximal history, seeded random long histories and VLQ delta chains are replayed on the real SourceMapper and each observed SourceMap() snapshot is validated by TLC (Trace_C09) against the declarative property and the machine.",
    note="Trusted: the TLA+ reference decoder as a reading of Source Map v3; TLC; the harness only forwards API calls. TLC integers are 32-bit, so VLQ magnitudes are covered up to 2^29+1 (not 2^31).",
